@@ -470,7 +470,7 @@ def _match(toks, i):
 class ItemSpec(object):
     def __init__(self, name, root, trait=None, expect=None, opaque=(), loop_once=False,
                  empty_prelude=False, havoc_calls=(), same_as=None, toplevel=False, note=None,
-                 trait_arg=None, self_ref=None, fixed_args=None):
+                 trait_arg=None, self_ref=None, fixed_args=None, self_type=None):
         self.name = name
         self.root = root            # fn name
         self.trait = trait          # None: inherent impl; 'Add' ...: trait impl
@@ -485,6 +485,7 @@ class ItemSpec(object):
         self.trait_arg = trait_arg  # impl Trait<Arg> disambiguation
         self.self_ref = self_ref    # impl .. for &T (True) / for T (False)
         self.fixed_args = fixed_args or {}   # parameter name -> python callable(translator) giving its value
+        self.self_type = self_type  # impl self type if different from the module's default
 
 
 class Translator(object):
